@@ -1,6 +1,7 @@
 """C06 — built transactions conserve value."""
 import json, os
 from lib import common as C
+from props import alike as A
 from lib.common import cz, cn, cbool, clist, cpair, copt
 
 PID = 'C06'
@@ -745,9 +746,9 @@ def share_assets(rng, c):
 def gen_cases(ctx, n_e2e, n_sel, n_calc, n_pack):
     cases = [dict(c) for c in corpus_cases()]
     ncorpus = len(cases)
-    cases += [share_assets(ctx.rng, gen_e2e(ctx.rng)) for _ in range(n_e2e)]
-    cases += [share_assets(ctx.rng, gen_sel(ctx.rng)) for _ in range(n_sel)]
-    cases += [gen_live(ctx.rng) for _ in range(max(40, n_sel // 2))]
+    cases += [A.lookalike_ids(ctx.rng, share_assets(ctx.rng, gen_e2e(ctx.rng))) for _ in range(n_e2e)]
+    cases += [A.lookalike_ids(ctx.rng, share_assets(ctx.rng, gen_sel(ctx.rng))) for _ in range(n_sel)]
+    cases += [A.lookalike_ids(ctx.rng, gen_live(ctx.rng)) for _ in range(max(40, n_sel // 2))]
     cases += [gen_calc(ctx.rng) for _ in range(n_calc)]
     cases += [gen_pack(ctx.rng) for _ in range(n_pack)]
     return cases, ncorpus
